@@ -278,6 +278,7 @@ pub fn hist_gen_cfg(prop : &str, thorough : bool, rng : &mut Rng) -> GenCfg
     g.cleans = *rng.pick(&[0u64, 8, 8, 15, 25]);
     g.shared_pool = rng.chance(1, 3);
     g.max_rules = rng.range(1, g.max_rules);
+    if thorough && rng.chance(1, 20) { g.max_rules = rng.range(15, 28); }
     match prop
     {
         "C02" => { g.failing = rng.chance(1, 6); g.cleans = *rng.pick(&[8u64, 15, 25]); },
